@@ -1,13 +1,12 @@
 """C02 - NASA-7 / NASA-9 / Shomate are internally consistent polynomials."""
 import ast
-import itertools
 from fractions import Fraction as Fr
 
 from ..nf import Rat, C
 from ..source import Unsupported, AnchorError, params
-from ..xlate import Interp, Obj, ListV, Elem, SumV, Raised, RankOrder
+from ..xlate import Interp, ListV, Elem, SumV, Raised, RankOrder
 from .rxnfix import set_public, get_public
-from .common import (same, show, deriv, is_zero, slots_in, coeff_vector, attached_models, attached_sum, sel_opaque,
+from .common import (same, show, slots_in, coeff_vector, attached_models, attached_sum, sel_opaque,
                      sub, atoms_of)
 
 NASA = 'pmutt.empirical.nasa'
@@ -194,21 +193,17 @@ def seg_ranks(nseg, seg='seg', cuts=None):
     return ranks
 
 
-def selected_segment(I, o, segs, T):
-    """which segment's coefficients a NASA-9 species evaluates at T (through the public getter): index, 'raised',
-    or None when the value mixes segments / uses none"""
-    got = I.call_method(o, 'get_CpoR', [], {'T': T})
+def selected_segment(I, o, segs, T, q='CpoR'):
+    """which segment's coefficients a NASA-9 species evaluates at T (through the public getter of quantity q): index,
+    'raised', or None when the value mixes segments / uses none"""
+    got = I.call_method(o, 'get_' + q, [], {'T': T})
     if isinstance(got, Raised):
         return 'raised', got
-    if isinstance(got, SumV):
-        got = got.scalar
-    if isinstance(got, ListV) and len(got) == 1:
-        got = got.items[0]
+    got = scalar_of(got)
     if not isinstance(got, Rat):
         return None, got
-    used = {a.split('[')[0] for a in got.atoms() if '[' in a}
-    idx = [j for j in range(len(segs)) if 's%d' % j in used]
-    return (idx[0] if len(idx) == 1 else None), got
+    used = vectors_used(got, ['s%d' % j for j in range(len(segs))])
+    return (int(used[0][1:]) if len(used) == 1 else None), got
 
 
 def check_get_nasa(run, repo, max_seg):
@@ -226,38 +221,44 @@ def check_get_nasa(run, repo, max_seg):
         positions.append((10 * nseg, nseg - 1, 'on upper bound of last segment'))
         positions.append((10 * nseg + 5, None, 'above every segment'))
         for rank, want, label in positions:
-            ranks = seg_ranks(nseg)
-            ranks['T'] = rank
-            I = interp(repo, ranks)
-            o, segs = nasa9_obj(I, repo, nseg)
-            sel, r = selected_segment(I, o, segs, I.D.sym('T'))
-            key = 'segments:%d %s' % (nseg, label)
-            if want is None:
-                run.check(sel == 'raised', 'PATH.refuse', con, key,
-                          'a temperature outside every NASA-9 segment must be refused with an exception, '
-                          'got %s' % show(r), owner.module, fn,
-                          sample='Nasa9 at T %s raises' % label)
-            else:
-                # at a shared boundary either adjacent segment contains T
-                allowed = {want, want + 1} if 'lower bound' in label and want + 1 < nseg and rank == 10 * (want + 1) \
-                    else {want}
-                run.check(sel in allowed, 'ORDER.segment', con, key,
-                          'the segment whose bounds contain T must be used, got %s' % show(r, 120),
-                          owner.module, fn)
-            n_inst += 1
+            for q in (QUANTITIES if nseg == 2 else ('CpoR',)):
+                ranks = seg_ranks(nseg)
+                ranks['T'] = rank
+                I = interp(repo, ranks)
+                o, segs = nasa9_obj(I, repo, nseg)
+                sel, r = selected_segment(I, o, segs, I.D.sym('T'), q)
+                key = 'segments:%d %s' % (nseg, label)
+                conq, ownq, fnq = (con, owner, fn) if q == 'CpoR' else \
+                    ('nasa.Nasa9.get_' + q,) + tuple(repo.find_method(ci, 'get_' + q))
+                if want is None:
+                    run.check(sel == 'raised', 'PATH.refuse', conq, key,
+                              'a temperature outside every NASA-9 segment must be refused with an exception, '
+                              'got %s' % show(r), ownq.module, fnq,
+                              sample='Nasa9 at T %s raises' % label if q == 'CpoR' else None)
+                else:
+                    # at a shared boundary either adjacent segment contains T
+                    allowed = {want, want + 1} if 'lower bound' in label and want + 1 < nseg and \
+                        rank == 10 * (want + 1) else {want}
+                    run.check(sel in allowed, 'ORDER.segment', conq, key,
+                              'the segment whose bounds contain T must be used, got %s' % show(r, 120),
+                              ownq.module, fnq)
+                n_inst += 1
     # segments listed in descending order, and segments that leave a gap: the segment is chosen by its own bounds
     for nseg in (2, 3):
         for j in range(nseg):
-            ranks = seg_ranks(nseg)
-            ranks['T'] = 10 * j + 5
-            I = interp(repo, ranks)
-            o, segs = nasa9_obj(I, repo, nseg)
-            set_public(I, o, 'nasas', ListV(list(reversed(segs))))
-            sel, r = selected_segment(I, o, segs, I.D.sym('T'))
-            run.check(sel == j, 'ORDER.segment', con, 'segments listed in descending order',
-                      '[%d segments listed from high to low, T inside segment %d] the segment whose own bounds contain '
-                      'T must be used, got %s' % (nseg, j, show(r, 120)), owner.module, fn)
-            n_inst += 1
+            for q in QUANTITIES:
+                ranks = seg_ranks(nseg)
+                ranks['T'] = 10 * j + 5
+                I = interp(repo, ranks)
+                o, segs = nasa9_obj(I, repo, nseg)
+                set_public(I, o, 'nasas', ListV(list(reversed(segs))))
+                sel, r = selected_segment(I, o, segs, I.D.sym('T'), q)
+                conq, ownq, fnq = (con, owner, fn) if q == 'CpoR' else \
+                    ('nasa.Nasa9.get_' + q,) + tuple(repo.find_method(ci, 'get_' + q))
+                run.check(sel == j, 'ORDER.segment', conq, 'segments listed in descending order',
+                          '[%d segments listed from high to low, T inside segment %d] the segment whose own bounds '
+                          'contain T must be used, got %s' % (nseg, j, show(r, 120)), ownq.module, fnq)
+                n_inst += 1
     ranks = {'seg0.T_low': 0, 'seg0.T_high': 10, 'seg1.T_low': 20, 'seg1.T_high': 30, 'T': 15}
     I = interp(repo, ranks)
     o, segs = nasa9_obj(I, repo, 2)
@@ -786,8 +787,9 @@ def array_rules(run, repo, max_len):
                                                                    show(each[wrong[0]], 90)) if wrong and n > 5 else ''
                 run.fail('BRANCH-TWIN', con, 'array-vs-elementwise',
                          'for %s of %d temperatures the result %s differs from element-by-element '
-                         'evaluation %s%s (a 1-element array stored into a scalar slot raises in numpy)'
-                         % ('an array' if form == 'array' else 'a list', n, show(got), show(ListV(each)), at),
+                         'evaluation %s%s%s'
+                         % ('an array' if form == 'array' else 'a list', n, show(got), show(ListV(each)), at,
+                            ' (a 1-element array stored into a scalar slot raises in numpy)' if n == 1 else ''),
                          owner.module, fn)
     return n_bt
 
@@ -951,9 +953,9 @@ class KindFlow:
             return Scope.join([entry, self.block(st.orelse, entry.copy())]) or entry
         if isinstance(st, ast.With):
             for it in st.items:
-                k = self.kind(it.context_expr, sc)
+                self.kind(it.context_expr, sc)
                 if it.optional_vars is not None:
-                    self.bind(it.optional_vars, 'unknown' if k != 'unknown' else k, sc)
+                    self.bind(it.optional_vars, 'unknown', sc)
             return self.block(st.body, sc)
         if isinstance(st, ast.Try):
             body = self.block(st.body, sc.copy())
@@ -1119,10 +1121,6 @@ class KindFlow:
         inner = sc.copy()
         for g in e.generators:
             self.bind(g.target, self.elem_kind(g.iter, inner), inner, self.consts(g.iter, inner))
-            if isinstance(g.target, ast.Name):
-                c_ = self.consts(g.iter, inner)
-                if c_ is not None:
-                    inner.c[g.target.id] = c_
             for cond in g.ifs:
                 inner, _ = self.refine(cond, inner)
         return inner
@@ -1178,8 +1176,9 @@ class KindFlow:
             self.kind(f, sc)
         argk = [self.kind(a, sc) for a in e.args]
         kwk = {kw.arg: self.kind(kw.value, sc) for kw in e.keywords}
-        if fname in ('pow', 'power') and len(e.args) >= 2 and not (fname == 'pow' and isinstance(f, ast.Attribute)
-                                                                   and recv != 'unknown'):
+        if fname == 'pow' and isinstance(f, ast.Attribute):
+            return 'float'              # math.pow: a float for every kind of argument
+        if fname in ('pow', 'power') and len(e.args) >= 2:
             self.power(e, e.args[0], e.args[1], argk[0], sc)
             return self.join_bin(argk[0], argk[1], ast.Pow())
         for kw in e.keywords:
@@ -1231,13 +1230,12 @@ class KindFlow:
         return 'unknown'
 
 
-def integer_temperatures(run, repo, neg_events):
+def integer_temperatures(run, repo):
     """numpy refuses a negative integer power of an integer: an evaluator that raises its temperature argument to such a
     power without first making it a float cannot be evaluated at T=300 / np.arange(...) temperatures, which the sibling
     evaluators accept.  Decided for every public evaluator and getter of the two modules by a forward flow of number kinds
     (KindFlow) from its arguments - which hold the caller's numbers as they are - to the base of every power whose
-    exponent can be a negative whole number.  neg_events: evaluator -> number of negative whole powers of T the
-    interpreter computed in it; an evaluator for which the flow finds none of them is outside what the flow follows."""
+    exponent can be a negative whole number.  Returns (instances, {construct: powers decided in it})."""
     n = 0
     entries = []
     for modname in (NASA, SHO):
@@ -1286,48 +1284,66 @@ def integer_temperatures(run, repo, neg_events):
                       'unchanged: numpy refuses this for integer temperatures (T=300 reaches here as np.int64), '
                       'so the species cannot be evaluated there although its sibling evaluators can'
                       % ast.unparse(base), pm, node)
+    return n, decided
+
+
+def negpow_guard(decided, neg_events):
+    """neg_events: evaluator -> number of negative whole powers of T the interpreter computed in it; an evaluator for
+    which the number-kind flow found none of them is spelled in a way the flow does not follow"""
     for con, cnt in sorted(neg_events.items()):
         if cnt and not decided.get(con):
             raise Unsupported('%s computes %d negative whole power(s) of T, none of which the number-kind flow of '
                               'TYPE.negpow found: spelled in a way the flow does not follow' % (con, cnt))
-    return n
 
 
 def check(run, repo):
     run.explanation = (
         'Abstract interpretation of the polynomial evaluators and getters of pmutt/empirical/nasa.py and '
-        'shomate.py into exact rational normal forms over symbolic coefficients a[i], T, units. Decided for '
+        'shomate.py into exact rational normal forms over symbolic coefficients a[i], T, units; the model species are '
+        'made by their own constructors. Decided for '
         'ALL coefficient vectors and temperatures at once: linearity in a; d(T*HoRT)/dT == CpoR and '
         'dSoR/dT == CpoR/T slot by slot; one H- and one S-integration-constant slot; GoRT == HoRT - SoR '
         'with identical arguments; Nasa.get_a on the 7 orderings of T against T_low<T_mid<T_high; '
-        'the NASA-9 segment selection (through Nasa9.get_CpoR) on every position of T relative to 1-4 segments (refusal outside); class getters use '
-        'the containing segment, also when the segments are listed from high to low or leave a gap; array evaluation '
-        'equals element-wise evaluation (bounded unrolling); a result buffer must not take its element type from the '
+        'the NASA-9 segment selection on every position of T relative to 1-4 segments (refusal outside; through all four '
+        'getters for two segments, through get_CpoR otherwise); class getters use '
+        'the containing segment, also when the segments are listed from high to low (all four getters) or leave a gap; '
+        'concrete temperatures on a bound and 2^-30 K next to it, asked for one after the other on one species and in one '
+        'array, are evaluated with the segment that contains them (nothing coarser than the temperature itself may '
+        'identify it); a second species evaluated after another one at the same temperature, and a species whose '
+        'segments / coefficients / break temperature were replaced, report their own current polynomial (reference: the '
+        'evaluator in an interpreter of its own); array evaluation '
+        'equals element-wise evaluation (bounded unrolling, arrays and a list; when a getter compares the number of '
+        'temperatures with a constant, the lengths on both sides of that constant are unrolled as well); a getter leaves '
+        'the temperatures it was given as they were; a result buffer must not take its element type from the '
         'caller\'s temperature container, and a temperature argument is not raised to a negative integer power before '
-        'it is made a float (integer temperatures).')
+        'it is made a float (integer temperatures; forward flow of number kinds through every public evaluator and getter, '
+        'cross-checked against the negative powers the interpreter computed).')
     run.assumptions = ['identities are over the reals (IEEE rounding not modelled)',
-                       'scalar/array agreement is decided for array lengths up to the stated bound; the '
-                       'loops are uniform in the index']
+                       'scalar/array agreement is decided for array lengths up to the stated bound and next to every '
+                       'constant the number of temperatures is compared with; the loops are uniform in the index',
+                       'neighbours of a bound are 2^-30 K away: a resolution finer than that is not told apart from exact']
     run.undecided = ['floating-point agreement beyond the identity over the reals',
                      'behaviour for non-numeric T']
     thorough = run.tier == 'thorough'
+    # decided on the syntax tree alone, so before anything that may leave the interpreted fragment
+    run.extra['negative integer powers of an argument'], decided = integer_temperatures(run, repo)
     shomate_units(run, repo, ('J/mol/K', 'kJ/mol/K', 'cal/mol/K', 'kcal/mol/K', 'eV/K'))
     run.floor('temperatures next to a bound', neighbour_rules(run, repo), 60)
     fams = {}
     fams['nasa'] = slot_rules(run, repo, 'nasa', NASA, 'get_nasa_', 7)
     fams['nasa9'] = slot_rules(run, repo, 'nasa9', NASA, 'get_nasa9_', 9)
     fams['shomate'] = slot_rules(run, repo, 'shomate', SHO, 'get_shomate_', 8)
-    check_get_a(run, repo)
-    n = check_get_nasa(run, repo, 4 if thorough else 3)
-    run.floor('Nasa9 segment-selection positions', n, 20)
-    class_rules(run, repo)
-    run.floor('species evaluated after another one / after their data were replaced', state_rules(run, repo), 36)
-    nbt = array_rules(run, repo, 5 if thorough else 3)
-    run.floor('BRANCH-TWIN instances', nbt, 36)
     neg = {}
     for fam in fams.values():
         neg.update(fam['neg'])
-    run.extra['negative integer powers of an argument'] = integer_temperatures(run, repo, neg)
+    negpow_guard(decided, neg)
+    check_get_a(run, repo)
+    n = check_get_nasa(run, repo, 4 if thorough else 3)
+    run.floor('Nasa9 segment-selection positions', n, 80)
+    class_rules(run, repo)
+    run.floor('species evaluated after another one / after their data were replaced', state_rules(run, repo), 36)
+    nbt = array_rules(run, repo, 5 if thorough else 3)
+    run.floor('BRANCH-TWIN instances', nbt, 56)
     run.extra['array_length_bound'] = 5 if thorough else 3
 
 
@@ -1368,6 +1384,53 @@ MUTANTS = [
                 'T_arr = np.array([T**-2, T**-1, np.ones_like(T), T, T**2, T**3, T**4,')]},
     {'name': 'nasa9 HoRT no longer made a float', 'expect': ('TYPE.negpow', 'get_nasa9_HoRT'),
      'edits': [(N, 'T = float(np.squeeze(T))', 'T = np.squeeze(T)', 0, 2)]},
+    # white-box round 2
+    {'name': 'NASA-9 enthalpy takes the last listed segment from its lower bound upwards',
+     'expect': ('ORDER.segment', 'Nasa9.get_HoRT'),
+     'edits': [(N, "            nasa = self._get_nasa(T=T)\n            HoRT = nasa.get_HoRT(T=T) \\",
+                "            nasa = self.nasas[-1] if T >= self.nasas[-1].T_low else self._get_nasa(T=T)\n"
+                "            HoRT = nasa.get_HoRT(T=T) \\")]},
+    {'name': 'NASA-9 segment memo declared in the class body (shared by all species)',
+     'expect': ('EFFECT.state', 'Nasa9.get_'),
+     'edits': [(N, "    def _get_nasa(self, T):\n", "    _segment_cache = {}\n\n    def _get_nasa(self, T):\n"),
+               (N, "        for nasa in self.nasas:\n            if T <= nasa.T_high and T >= nasa.T_low:\n                return nasa\n",
+                "        try:\n            return self._segment_cache[T]\n        except KeyError:\n            pass\n"
+                "        for nasa in self.nasas:\n            if T <= nasa.T_high and T >= nasa.T_low:\n"
+                "                self._segment_cache[T] = nasa\n                return nasa\n")]},
+    {'name': 'NASA-9 segment memo of the species keyed by the temperature printed with two decimals',
+     'expect': ('ORDER.segment', 'Nasa9.get_'),
+     'edits': [(N, "        self._nasas = copy(val)\n", "        self._nasas = copy(val)\n        self._segment_of = {}\n"),
+               (N, "        for nasa in self.nasas:\n            if T <= nasa.T_high and T >= nasa.T_low:\n                return nasa\n",
+                "        key = '{:.2f}'.format(T)\n        try:\n            return self._segment_of[key]\n"
+                "        except KeyError:\n            pass\n"
+                "        for nasa in self.nasas:\n            if T <= nasa.T_high and T >= nasa.T_low:\n"
+                "                self._segment_of[key] = nasa\n                return nasa\n")]},
+    {'name': 'NASA-9 segment memo of the species not emptied when the segments are replaced',
+     'expect': ('EFFECT.state', 'Nasa9.get_'),
+     'edits': [(N, "        self.nasas = nasas\n", "        self._segment_of = {}\n        self.nasas = nasas\n"),
+               (N, "        for nasa in self.nasas:\n            if T <= nasa.T_high and T >= nasa.T_low:\n                return nasa\n",
+                "        try:\n            return self._segment_of[T]\n        except KeyError:\n            pass\n"
+                "        for nasa in self.nasas:\n            if T <= nasa.T_high and T >= nasa.T_low:\n"
+                "                self._segment_of[T] = nasa\n                return nasa\n")]},
+    {'name': 'NASA-7 coefficient memo declared in the class body', 'expect': ('EFFECT.state', 'Nasa.get_'),
+     'edits': [(N, "    def get_a(self, T):\n", "    _a_of = {}\n\n    def get_a(self, T):\n"),
+               (N, "        if T < self.T_mid:\n", "        if T in self._a_of:\n            return self._a_of[T]\n        if T < self.T_mid:\n"),
+               (N, "            return self.a_low\n", "            self._a_of[T] = self.a_low\n            return self.a_low\n"),
+               (N, "            return self.a_high\n", "            self._a_of[T] = self.a_high\n            return self.a_high\n")]},
+    {'name': 'NASA-7 Cp of 32 or more temperatures by array expressions, T_mid itself in the low segment',
+     'expect': ('BRANCH-TWIN', 'Nasa.get_CpoR'),
+     'edits': [(N, "        if _is_iterable(T):\n            CpoR = np.zeros(len(T))\n",
+                "        if _is_iterable(T) and len(T) >= 32:\n"
+                "            a = np.array([self.a_high if T_i > self.T_mid else self.a_low for T_i in T])\n"
+                "            T = np.asarray(T, dtype=np.double)\n"
+                "            CpoR = a[:, 0] + a[:, 1] * T + a[:, 2] * T**2 + a[:, 3] * T**3 + a[:, 4] * T**4\n"
+                "        elif _is_iterable(T):\n            CpoR = np.zeros(len(T))\n", 0, 2)]},
+    {'name': 'NASA-9 entropy buffer is the caller\'s temperature array', 'expect': ('EFFECT.argument', 'Nasa9.get_SoR'),
+     'edits': [(N, "SoR = np.zeros_like(a=T, dtype=np.double)", "SoR = np.asarray(T, dtype=np.double)", 1, 2)]},
+    {'name': 'nasa9 CpoR powers of the raw argument through a comprehension', 'expect': ('TYPE.negpow', 'get_nasa9_CpoR'),
+     'edits': [(N, 'T_arr = np.array([1. / T**2, 1. / T, np.ones_like(T), T, T**2, T**3, T**4,\n'
+                   '                      np.zeros_like(T), np.zeros_like(T)])',
+                'T_arr = np.array([T**n for n in range(-2, 5)] + [np.zeros_like(T), np.zeros_like(T)])')]},
 ]
 EQUIV = [
     {'name': 'nasa9 HoRT made a float through dtype', 
@@ -1380,4 +1443,26 @@ EQUIV = [
     {'name': 'get_a with flipped comparison', 'edits': [(N, 'if T < self.T_mid:', 'if self.T_mid > T:')]},
     {'name': 'Nasa9._get_nasa chained comparison',
      'edits': [(N, 'if T <= nasa.T_high and T >= nasa.T_low:', 'if nasa.T_low <= T <= nasa.T_high:')]},
+    # white-box round 2
+    {'name': 'nasa9 HoRT converted only when it is not a float yet',
+     'edits': [(N, '    T = float(np.squeeze(T))\n', '    if not isinstance(T, float):\n        T = float(np.squeeze(T))\n', 0, 2)]},
+    {'name': 'nasa9 SoR converted by a conditional expression',
+     'edits': [(N, '    T = float(np.squeeze(T))\n', '    T = T if isinstance(T, float) else float(np.squeeze(T))\n', 1, 2)]},
+    {'name': 'Nasa.T_mid kept behind a pass-through property',
+     'edits': [(N, "    def get_a(self, T):\n",
+                "    @property\n    def T_mid(self):\n        return self._T_mid\n\n"
+                "    @T_mid.setter\n    def T_mid(self, val):\n        self._T_mid = val\n\n    def get_a(self, T):\n")]},
+    {'name': 'NASA-9 segment memo of the species keyed by the temperature, emptied with the segments',
+     'edits': [(N, "        self._nasas = copy(val)\n", "        self._nasas = copy(val)\n        self._segment_of = {}\n"),
+               (N, "        for nasa in self.nasas:\n            if T <= nasa.T_high and T >= nasa.T_low:\n                return nasa\n",
+                "        try:\n            return self._segment_of[T]\n        except KeyError:\n            pass\n"
+                "        for nasa in self.nasas:\n            if T <= nasa.T_high and T >= nasa.T_low:\n"
+                "                self._segment_of[T] = nasa\n                return nasa\n")]},
+    {'name': 'NASA-7 Cp of 32 or more temperatures by array expressions, upper segment at T_mid',
+     'edits': [(N, "        if _is_iterable(T):\n            CpoR = np.zeros(len(T))\n",
+                "        if _is_iterable(T) and len(T) >= 32:\n"
+                "            a = np.array([self.a_high if T_i >= self.T_mid else self.a_low for T_i in T])\n"
+                "            T = np.asarray(T, dtype=np.double)\n"
+                "            CpoR = a[:, 0] + a[:, 1] * T + a[:, 2] * T**2 + a[:, 3] * T**3 + a[:, 4] * T**4\n"
+                "        elif _is_iterable(T):\n            CpoR = np.zeros(len(T))\n", 0, 2)]},
 ]
